@@ -18,7 +18,7 @@ for L in (1, 2, 16, 17, 32, 33):
             RT_CASES.append("L%d:p%d:w1" % (L, p))
 RT_CASES = sorted(set(RT_CASES + ["L0:p0:w0", "L1:p0:w1"]))
 FMT_CASES = ["f%d:L%d:p%d:w1:e%d" % (f, L, p, e) for f in (0, 1) for (L, p) in ((1, 0), (16, 15), (17, 16), (17, 3), (33, 32), (33, 15), (20, 19))
-             for e in (0, 1, 2, 3)] + ["f0:L17:p15:w2:e0", "f1:L17:p15:w2:e0"]
+             for e in (0, 1, 2, 3)] + ["f0:L17:p15:w2:e0", "f1:L17:p15:w2:e0", "f0:L40:p20:w1:e4", "f1:L40:p20:w1:e4", "f1:L48:p31:w1:e4"]
 
 HARNESSES = [
     {"fn": "h_shape", "cases": ["sym", "sym4", "16/4", "8/2", "16/5", "7/2", "4/8", "1/1", "256/256", "10/4", "16/256"],
@@ -27,7 +27,7 @@ HARNESSES = [
     {"fn": "h_roundtrip", "cases": RT_CASES, "quick_cases": ["L33:p15", "L17:p15", "L2:p0", "L0:p0:w0", "L33:p31"],
      "timeout": {"quick": 90, "thorough": 300}},
     {"fn": "h_addr", "cases": ["default", "f0"], "timeout": {"quick": 90, "thorough": 300}},
-    {"fn": "h_formats", "cases": FMT_CASES, "quick_cases": ["f0:L17:p16:w1:e2", "f1:L17:p16:w1:e1", "f0:L33:p32:w1:e0", "f1:L20:p19:w1:e3", "f1:L1:p0:w1:e0", "f0:L16:p15:w1:e0"],
+    {"fn": "h_formats", "cases": FMT_CASES, "quick_cases": ["f1:L40:p20:w1:e4", "f0:L17:p16:w1:e2", "f1:L17:p16:w1:e1", "f0:L33:p32:w1:e0", "f1:L20:p19:w1:e3", "f1:L1:p0:w1:e0", "f0:L16:p15:w1:e0"],
      "timeout": {"quick": 90, "thorough": 300}},
     {"fn": "h_hexdisplay", "cases": ["L17:p15", "L33:p0", "L40:p31"], "quick_cases": ["L17:p15"],
      "timeout": {"quick": 90, "thorough": 300}},
@@ -41,7 +41,7 @@ BOUNDS = {"shape": "bytes_per_line, bytes_per_chunk symbolic in 1..6 with data l
           "address": "one line whose 8-digit (default) / 4-digit (BMC format) address is symbolic over all values",
           "formats": "both I/O-drawer formats; 1 symbolic byte (2 in two cases) at catalogue positions, symbolic hex-digit "
                      "case, short last line cut or blank-padded, one comment or blank line at a symbolic position, or "
-                     "lines with their trailing newline", "hex display": "PEL files of 17, 33, 40 and 16400 bytes, 2 symbolic bytes"}
+                     "lines with their trailing newline, or a second row that repeats the first one", "hex display": "PEL files of 17, 33, 40 and 16400 bytes, 2 symbolic bytes"}
 ASSUMPTIONS = ["print replaced by a recorder in h_hexdisplay (module-attribute stub)"]
 OUTSIDE = ["layouts other than those listed", "three or more interacting special bytes", "data longer than 40 bytes"]
 
@@ -204,7 +204,10 @@ def h_formats() -> bool:
     L, p, w = _parse_case()
     data, sym = _window(L, p, w)
     upper, cut = sym_bool("upper"), sym_bool("cut")
-    extra = int(CASE.split(":e")[1])     # 0 none, 1 blank line, 2 comment line, 3 lines keep their trailing newline
+    extra = int(CASE.split(":e")[1])     # 0 none, 1 blank line, 2 comment line, 3 lines keep their trailing newline, 4 repeated row
+    if extra == 4:
+        # the second 16-byte row equals the first one except for the symbolic byte (which may take the same value too)
+        data = mkbytes(FILL[:16], FILL[:p - 16], sym, FILL[p - 15:16], FILL[32:L])
     pos = sym_int("pos", 0, (L + 15) // 16) if extra in (1, 2) else 0
     cut_c = bool(cut)
     lines = _render(fmt, data, upper, cut_c)
